@@ -306,11 +306,15 @@ def run_cbmc_entry(var, entry, witness=False):
                 timeout=(rc == -9), raw_tail=(so[-2000:] + se[-2000:]) if results is None else "")
 
 
+_attempt = [0]
+
+
 def replay_native(var, entry, inputs, work, tag):
     exe = var.build_native()
+    _attempt[0] += 1
     rf = work.path("replay_%s_%s.txt" % (entry.name, tag))
     open(rf, "w").write(" ".join(str(x) for x in inputs) + "\n")
-    env = dict(os.environ, VP_REPLAY=rf, VP_REPS="400", ASAN_OPTIONS="detect_leaks=0:abort_on_error=0:halt_on_error=0:detect_stack_use_after_return=1",
+    env = dict(os.environ, VP_REPLAY=rf, VP_REPS="400", VP_ATTEMPT=str(_attempt[0]), ASAN_OPTIONS="detect_leaks=0:abort_on_error=0:halt_on_error=0:detect_stack_use_after_return=1",
                UBSAN_OPTIONS="print_stacktrace=0:halt_on_error=1")
     rc, so, se, dt = run([exe, entry.name], timeout=120, env=env)
     verdict = "not_reproduced"
